@@ -14,11 +14,18 @@ META = {
         'R2': 'pruning bounds: a cell is skipped only if its clamped distance (componentwise clamp of the query into the cell) exceeds the current k-th best; the search stops only when '
               '(distance to the own cell\'s nearest face + r * min over axes of the cell width)^2 exceeds the k-th best; the heap is a max-heap on the squared distance and results are '
               'popped into positions k-1..0',
+        'R4': 'sphere through k boundary points: from_boundary_points dispatches k = 2, 3, 4 to the two/three/four-point constructors with the points in order (C19.R6-R8: they pass through '
+              'their points), returns the point itself with radius 0 for k = 1 and the empty sphere for k = 0',
+        'R5': 'Welzl recursion shape: base case (no points left or four boundary points) returns the sphere through the boundary; otherwise one point is taken off, the rest is solved, '
+              'the point is added to the boundary and the rest re-solved exactly when the solution does not contain it, and both vectors are restored before returning',
+        'R6': 'Epos6: the initial sphere is grown over ALL inputs — points by Sphere::extend (C19.R9), spheres by R += d, c -= d*(c - s.c)/dist with d = (dist - R + s.r)/2 when d > 0, which is '
+              'the smallest sphere containing the old sphere and the given one (R\' == R + d == dist - d + s.r)',
         'R3': 'ring enumeration: ring r consists of all offsets in [-r, r]^3 with Chebyshev norm exactly r that map to a valid cell',
     },
     'explanation': 'Decides the geometric bookkeeping of the uniform grid and the admissibility of the two pruning bounds of the k-nearest-neighbour search as identities of normal forms. '
-                   'Not decided: exactness of the search as a whole (heap discipline over runtime data) and the bounding-sphere solvers (Welzl recursion, Epos6), which quantify over '
-                   'runtime point sets; C19 covers the sphere constructors they use.',
+                   'For the bounding-sphere solvers: the dispatch to the k-point constructors (R4), the shape of the Welzl recursion (R5) and that the approximate solver grows its '
+                   'sphere over every input with a containment-preserving step (R6). Not decided: exactness of the search as a whole (heap discipline over runtime data), minimality of '
+                   'the Welzl result and termination, which quantify over runtime point sets.',
     'trusted_base': ['std BinaryHeap max-heap', 'glam table', 'E0 extractor'],
     'assumptions': ['real arithmetic'],
 }
@@ -30,7 +37,7 @@ def run(ctx):
     for cfg in ctx.configs_used:
         F = ctx.facts(cfg)
         sfx = '' if cfg == 'default' else '@' + cfg
-        for fn in (r1, r2, r3):
+        for fn in (r1, r2, r3, r4, r5, r6):
             rule = 'C20.' + fn.__name__.upper()
             ctx.guarded(rule, 'evaluate' + sfx, lambda: fn(ctx, F, rule, sfx))
 
@@ -319,3 +326,168 @@ def r3(ctx, F, rule, sfx):
         ok = keep is not None
         extra = [gd for gd in e.guard if gd is not keep and repr(gd) != '(r != 0)' and not (dtab.is_discr_eq(gd) and '::next(' in repr(gd))]
         ctx.check(rule, 'ring-is-chebyshev-shell' + sfx, ok and not extra, [repr(gd)[:90] for gd in e.guard if not ('::next(' in repr(gd))], 'offset kept iff max(|di|,|dj|,|dk|) >= r', w, key_extra='shell')
+
+
+def r4(ctx, F, rule, sfx):
+    b = F.body_by_suffix('Sphere::from_boundary_points')
+    ctors = {2: 'Sphere::from_two_points', 3: 'Sphere::from_three_points', 4: 'Sphere::from_four_points'}
+    no = [x['path'] for x in F.bodies if x['path'].endswith(tuple(ctors.values()))]
+    w = where(b)
+    for k in range(0, 5):
+        ip = I.Interp(F, no_inline=no)
+        pts = I.arr([I.sym_vec3('p%d' % i) for i in range(k)])
+        try:
+            v, _ = ip.call_body(b, [ip.ref_to(pts)])
+        except I.Diverge:
+            ctx.bad(rule, 'boundary-points-%d%s' % (k, sfx), 'panics', 'a sphere', w, key_extra='k%d:diverge' % k)
+            continue
+        ctx.evaluations += ip.evaluations
+        t = repr(I.frozen(v)).replace(' ', '')
+        if k >= 2:
+            want = 'call:geometry::%s(%s)' % (ctors[k], ','.join('DVec3{x:p%d.x,y:p%d.y,z:p%d.z}' % (i, i, i) for i in range(k)))
+            ctx.check(rule, 'boundary-points-%d%s' % (k, sfx), t == want, t[:120], '%s(points[0], .., points[%d])' % (ctors[k], k - 1), w, key_extra='k%d' % k)
+        elif k == 1:
+            ok = False
+            detail = t[:120]
+            if isinstance(v, I.St):
+                c = c3(I.get_field(v, 'center'))
+                r_ = as_rf(I.get_field(v, 'radius'))
+                ok = [repr(x) for x in c] == ['p0.x', 'p0.y', 'p0.z'] and r_.is_zero()
+            ctx.check(rule, 'boundary-points-1%s' % sfx, ok, detail, 'the sphere of radius 0 centred at the point (it must contain its boundary point)', w, key_extra='k1:%s' % ('empty' if 'EMPTY' in t else 'other'))
+        else:
+            ctx.check(rule, 'boundary-points-0%s' % sfx, 'EMPTY' in t or (isinstance(v, I.St) and as_rf(I.get_field(v, 'radius')).is_zero()), t[:80], 'the empty sphere', w, key_extra='k0')
+
+
+def r5(ctx, F, rule, sfx):
+    wb = F.body_by_suffix('Welzl::bounding_sphere_recursive')
+    no = [x['path'] for x in F.bodies if x['path'].endswith(('Sphere::from_boundary_points', 'Sphere::contains'))]
+    ip = I.Interp(F, no_inline=no)
+    pts = I.Sym(nf.sym_atom('pts'), 'std::vec::Vec<glam::DVec3>')
+    bnd = I.Sym(nf.sym_atom('bnd'), 'std::vec::Vec<glam::DVec3>')
+    v, _ = ip.call_body(wb, [ip.ref_to(pts, mut=True), ip.ref_to(bnd, mut=True)])
+    ctx.evaluations += ip.evaluations
+    w = where(wb)
+    ev = [e for e in ip.events if e.body is wb]
+    name = lambda e: e.callee.rsplit('::', 1)[-1]
+    EMPTY = 'b:call:std::vec::Vec::is_empty(pts)'
+    FULL = '(len(bnd) == 4)'
+    base = [e for e in ev if name(e) == 'from_boundary_points']
+    gsets = sorted(tuple(repr(g) for g in e.guard) for e in base)
+    ok = len(base) == 2 and all(repr(e.fargs[0]) == 'bnd' for e in base) and gsets == sorted([(EMPTY,), ('!' + EMPTY, FULL)])
+    ctx.check(rule, 'base-case%s' % sfx, ok, gsets, 'from_boundary_points(boundary) iff points is empty or boundary.len() == 4', w, key_extra='base')
+    rec = [e for e in ev if name(e) == 'bounding_sphere_recursive']
+    con = [e for e in ev if name(e) == 'contains']
+    pops = [e for e in ev if name(e) == 'pop']
+    pushes = [e for e in ev if name(e) == 'push']
+    pt = 'unwrap(call:std::vec::Vec::pop(pts))'
+    ok = len(con) == 1 and repr(con[0].fargs[1]) == pt and len(rec) == 2 and repr(con[0].fargs[0]) == repr(I.frozen(rec[0].result))
+    ctx.check(rule, 'tests-the-removed-point-against-the-rest%s' % sfx, ok, [repr(a)[-60:] for a in con[0].fargs] if con else 'no containment test', 'solution(rest).contains(point taken off)', w, key_extra='test')
+    notc = '!' + repr(I.B('atom', nf.app_atom('call:geometry::Sphere::contains', *[x for x in con[0].fargs]))) if con else None
+    notcont = lambda e: any(repr(g).startswith('!b:call:geometry::Sphere::contains(') for g in e.guard)
+    bp = [e for e in pushes if repr(e.fargs[1]) == pt and notcont(e)]
+    ok = len(bp) == 1 and len(rec) == 2 and any(repr(g).startswith('!b:call:geometry::Sphere::contains(') for g in bp[0].guard) and any(repr(g).startswith('!b:call:geometry::Sphere::contains(') for g in rec[1].guard)
+    ctx.check(rule, 'point-joins-boundary-iff-not-contained%s' % sfx, ok, '%d boundary push(es)' % len(bp), 'boundary.push(point); re-solve — exactly when !solution.contains(point)', w, key_extra='retry')
+    # restoration: boundary.pop() on the retry path, points.push(point) on every non-base path
+    bpop = [e for e in pops if 'bounding_sphere_recursive' in repr(e.fargs[0]) and any(repr(g).startswith('!b:call:geometry::Sphere::contains(') for g in e.guard)]
+    ppush = [e for e in pushes if repr(e.fargs[1]) == pt and e not in bp]
+    ok = len(bpop) == 1 and len(ppush) == 1 and not any('contains' in repr(g) for g in ppush[0].guard)
+    ctx.check(rule, 'vectors-restored%s' % sfx, ok, 'boundary pops on the retry path: %d; points pushes: %d' % (len(bpop), len(ppush)), 'boundary.pop() after the retry, points.push(point) before returning', w, key_extra='restore')
+    # entry: starts with an empty boundary and all points
+    eb = F.body('<bounding_sphere::Welzl as bounding_sphere::BoundingSphereSolver>::bounding_sphere')
+    ip2 = I.Interp(F, no_inline=[wb['path']])
+    ip2.call_body(eb, [I.Sym(nf.sym_atom('points'), '&[glam::DVec3]')])
+    ctx.evaluations += ip2.evaluations
+    r0 = [e for e in ip2.events if e.callee == wb['path']]
+    ok = len(r0) == 1 and repr(r0[0].fargs[0]) == 'call:std::slice::<impl [T]>::to_vec(points)' and repr(r0[0].fargs[1]).replace(' ', '') == 'array{}'
+    ctx.check(rule, 'starts-from-all-points-and-empty-boundary%s' % sfx, ok, [repr(a)[:60] for a in r0[0].fargs] if r0 else 'no call', 'recursive(points.to_vec(), [])', where(eb), key_extra='entry')
+
+
+def r6(ctx, F, rule, sfx):
+    eb = F.body('<bounding_sphere::Epos6 as bounding_sphere::BoundingSphereSolver>::bounding_sphere')
+    no = [x['path'] for x in F.bodies if x['path'].endswith(('Sphere::extend', 'BoundingSphereSolver>::bounding_sphere')) and x is not eb]
+    ip = I.Interp(F, no_inline=no)
+    v, _ = ip.call_body(eb, [I.Sym(nf.sym_atom('points'), '&[glam::DVec3]')])
+    ctx.evaluations += ip.evaluations
+    w = where(eb)
+    ext = [e for e in ip.events if e.body is eb and e.callee and e.callee.endswith('Sphere::extend')]
+    ok = len(ext) == 1 and ext[0].in_loop
+    detail = '%d extend call(s)' % len(ext)
+    if ok:
+        nx = [x for x in next_events(ip, eb) if x.in_loop and repr(I.frozen(I.get_field(I.downcast(x.result, 'Some'), 0))) == repr(ext[0].fargs[1])]
+        ok = len(nx) == 1
+        if ok:
+            chain, src = loop_stream(ip, nx[0])
+            names = [n for n, _ in chain]
+            ok = names in (['into_iter'], ['into_iter', 'iter'], ['iter']) and repr(src) == 'points'
+            detail = 'extend(item) over %s of %r' % (' <- '.join(names), src)
+            extra = [g for g in ext[0].guard if not (dtab.is_discr_eq(g) and '::next(' in repr(g))]
+            ok = ok and not extra
+            # loop-carried sphere: the extended sphere becomes the current one
+            L, li = loop_record_of(ip, nx[0])
+            carried = [i for i, p_ in enumerate(L['phi']) if p_ is not None and repr(I.frozen(p_)) == repr(ext[0].fargs[0])]
+            ok = ok and len(carried) == 1 and all(repr(I.frozen(vals.get(carried[0]))) == repr(I.frozen(ext[0].result)) for g, vals in L['back'])
+            ok = ok and repr(I.frozen(v)) == repr(ext[0].fargs[0])
+    ctx.check(rule, 'points:grown-over-every-input%s' % sfx, ok, detail, 'for point in points { sphere = sphere.extend(*point) } and the loop-carried sphere is returned', w, key_extra='points')
+    # spheres: the extension step
+    sb = F.body('<bounding_sphere::Epos6 as bounding_sphere::BoundingSphereSolver>::bounding_sphere_of_spheres')
+    ip = I.Interp(F, no_inline=[x['path'] for x in F.bodies if x['path'].endswith('BoundingSphereSolver>::bounding_sphere') or 'bounding_sphere_of_spheres::{closure' in x['path']])
+    v, _ = ip.call_body(sb, [I.Sym(nf.sym_atom('spheres'), '&[geometry::Sphere]')])
+    ctx.evaluations += ip.evaluations
+    ws = where(sb)
+    # the last loop of the function: its back-edge value of the bounding sphere
+    loops = [L for L in ip.loops if L['body'] is sb and L['depth'] == 1]
+    last = None
+    for L in loops:
+        for i, p_ in enumerate(L['phi']):
+            if p_ is not None and 'Sphere' in (sb['locals'][i]['ty']) and L['init'][i] is not None and 'bounding_sphere(' in repr(I.frozen(L['init'][i])):
+                last = (L, i)
+    if last is None:
+        raise AnalysisIncomplete('the extension loop over the spheres was not identified')
+    L, bi = last
+    cur = L['phi'][bi]
+    backs = [vals.get(bi) for g, vals in L['back']]
+    if len(backs) != 1:
+        raise AnalysisIncomplete('extension loop has %d back edges' % len(backs))
+    nxt = backs[0]
+    R = as_rf(I.get_field(cur, 'radius', 'f64'))
+    C = c3(I.get_field(cur, 'center', 'glam::DVec3'))
+    nx = [x for x in next_events(ip, sb) if blk_of_loop(sb, x, L)]
+    if len(nx) != 1:
+        raise AnalysisIncomplete('extension loop has %d stream reads' % len(nx))
+    chain, src = loop_stream(ip, nx[0])
+    ok_stream = [n for n, _ in chain] in (['into_iter'], ['into_iter', 'iter'], ['iter']) and repr(src) == 'spheres'
+    ctx.check(rule, 'spheres:grown-over-every-input%s' % sfx, ok_stream, '%s over %r' % (' <- '.join(n for n, _ in chain), src), 'for sphere in spheres', ws, key_extra='spheres-stream')
+    it = I.get_field(I.downcast(nx[0].result, 'Some'), 0)
+    sc = c3(I.get_field(it, 'center', 'glam::DVec3'))
+    sr = as_rf(I.get_field(it, 'radius', 'f64'))
+    d = [sc[i] - C[i] for i in range(3)]
+    dist = nf.fn_sqrt(d[0] * d[0] + d[1] * d[1] + d[2] * d[2])
+    delta = (dist - R + sr) / 2
+    grow = I.b_cmp('<', RF.const(0), delta)
+
+    def val_for(b_):
+        def val(leaf):
+            if leaf == grow:
+                return b_
+            if leaf == I.b_not(grow):
+                return not b_
+            raise AnalysisIncomplete('sphere extension depends on %r' % (leaf,))
+        return val
+    Rn = as_rf(I.get_field(nxt, 'radius', 'f64'))
+    Cn = c3(I.get_field(nxt, 'center', 'glam::DVec3'))
+    R1 = as_rf(dtab.evaluate(Rn, val_for(True)))
+    C1 = [as_rf(dtab.evaluate(x, val_for(True))) for x in Cn]
+    R0 = as_rf(dtab.evaluate(Rn, val_for(False)))
+    C0 = [as_rf(dtab.evaluate(x, val_for(False))) for x in Cn]
+    ok_keep = R0 == R and all(C0[i] == C[i] for i in range(3))
+    ok_grow = R1 == R + delta and all(C1[i] == C[i] + delta * d[i] / dist for i in range(3))
+    tangent = ok_grow and (dist - delta + sr) == R1
+    ctx.check(rule, 'spheres:step-unchanged-when-contained%s' % sfx, ok_keep, 'R -> %r' % (R0,), 'unchanged when (dist - R + r)/2 <= 0', ws, key_extra='keep')
+    ctx.check(rule, 'spheres:step-is-smallest-enclosing%s' % sfx, ok_grow and tangent, 'R -> %s' % repr(R1)[:100], 'R + d, centre moved by d towards the sphere, d = (dist - R + r)/2 (then R\' == dist - d + r)', ws, key_extra='grow')
+
+
+def blk_of_loop(b, ev, L):
+    for bl in b['blocks']:
+        if bl['term'] is ev.term:
+            return bl['id'] in L['blocks']
+    return False
